@@ -463,9 +463,10 @@ def _chief_is_unit_field(n, stop, finite, field):
     return cu
 
 
-# stop on the first surface of an infinite-object lens is left out: there EPL == positions[1] and Paraxial.trace divides 0/0
-# (observation recorded in DESIGN.md; marginal_ray()/chief_ray(), which the property names, are unaffected)
-for (_n, _s, _f, _fl) in ((4, 2, False, 'angle'), (4, 2, True, 'object_height'), (4, 2, True, 'angle'), (4, 1, True, 'object_height')):
+# (4, 1, False, 'angle'): stop on the first surface of an infinite-object lens -- EPL == positions[1], where Paraxial.trace used to
+# divide 0/0 (fixed by 90068ca)
+for (_n, _s, _f, _fl) in ((4, 2, False, 'angle'), (4, 2, True, 'object_height'), (4, 2, True, 'angle'), (4, 1, True, 'object_height'),
+                          (4, 1, False, 'angle')):
     _chief_is_unit_field(_n, _s, _f, _fl)
 
 
